@@ -174,6 +174,15 @@ def cmd_mutants(argv):
     if not names and not only_props:
         with open(out, "w") as f:
             json.dump(results, f, indent=1, sort_keys=True)
+    elif "--merge" in argv and os.path.exists(out):
+        # re-run of some changes after a fix: replace their rows in the stored table of the last full run
+        with open(out) as f:
+            stored = json.load(f)
+        by_name = dict((r["name"], r) for r in results)
+        stored = [by_name.pop(r["name"], r) for r in stored] + list(by_name.values())
+        with open(out, "w") as f:
+            json.dump(stored, f, indent=1, sort_keys=True)
+        print("merged %d row(s) into %s" % (len(results), out))
     print("mutants: %d run, %d problems" % (len(results), bad))
     return 1 if bad else 0
 
